@@ -504,6 +504,15 @@ struct Run{
     else if(kind=="xrange_unsorted"){ if(nx<2) return; std::vector<double> xs(nx); for(size_t i=0;i<nx;i++) xs[i]=10.0-i; rc=lib_call([&]{ live->Set_xrange(xs); }); }
     else if(kind=="xrange_scale"){ rc=lib_call([&]{ live->Set_xrange(1.0,2.0,"cubic"); }); }
     else if(kind=="xrange_log0"){ rc=lib_call([&]{ live->Set_xrange(0.0,2.0,"log"); }); }
+    else if(kind=="ini_dim7"||kind=="ini_dim1"){
+      // re-initialisation with an unsupported Hilbert dimension ends in the vector constructor's exception half way through ini();
+      // nothing may leak or be touched out of bounds, and the object can be initialised properly afterwards
+      unsigned bad=(kind=="ini_dim7")?7u:1u;
+      rc=lib_call([&]{ live->ini(nx,bad,nrhos,nsc,t_ini); });
+      if(rc!=CALL_EXCEPTION) c.ctr->add("probe_bad_call_not_rejected");
+      Json cfg=Json::object(); cfg["nx"]=(int)nx; cfg["nsun"]=(int)nsun; cfg["nrhos"]=(int)nrhos; cfg["nscalars"]=(int)nsc; cfg["t0"]=t_ini; cfg["seed"]=(long long)opiseed(); cfg["grid"]="lin"; cfg["xa"]=1.0; cfg["xb"]=2.0;
+      Json ro=Json::object(); ro["cfg"]=cfg; op_reini(ro); return;
+    }
     else if(kind=="get_i"){ if(nx<2) return; double xo=o["above"].as_bool(true)?grid.back()+1.0:grid.front()-1.0; rc=lib_call([&]{ (void)live->Get_i(xo); }); }
     else return;
     if(rc!=CALL_EXCEPTION) c.ctr->add("probe_bad_call_not_rejected");   // rejection of these calls is a C17 matter; here only memory safety is judged
@@ -619,7 +628,7 @@ struct SolverEngine: Engine{
         else if(k==10){ Json o=Json::object(); o["op"]="limits"; o["hmin"]=(int)r.below(4); o["hmax"]=(int)r.below(3); ops.push(o); if(r.chance(0.6)){ evolve(r.chance(0.5)?r.uniform(1e-5,5e-3):dtgen()); } }
         else if(k==11){ Json o=Json::object(); o["op"]="any_numerics"; o["on"]=r.chance(0.4); ops.push(o); evolve(dtgen()); }
         else if(k==9){ Json o=Json::object(); o["op"]="evolve_fail"; o["at"]=(int)r.below(4); o["adaptive"]=r.chance(0.6); o["vs"]=(long long)r.below(100000); ops.push(o); }
-        else{ Json o=Json::object(); o["op"]="bad_call"; static const char* bk[]={"xrange_size","xrange_unsorted","xrange_scale","xrange_log0","get_i"}; o["kind"]=bk[r.below(5)]; o["above"]=r.chance(0.5); ops.push(o); }
+        else{ Json o=Json::object(); o["op"]="bad_call"; static const char* bk[]={"xrange_size","xrange_unsorted","xrange_scale","xrange_log0","get_i","ini_dim7","ini_dim1"}; o["kind"]=bk[r.below(7)]; o["above"]=r.chance(0.5); ops.push(o); }
       }
     }
     p["ops"]=ops;
